@@ -3,41 +3,53 @@
 PID = "C19"
 CLAIM = True
 MANIFEST_TEXT = (
-    "Lean 4 theorems about an executable model of mpiguard.hh and of the four future classes (MPIFuture<T>, "
-    "MPIFuture<void>, PseudoFuture<T>, PseudoFuture<void>). Guard: each rank's code is a program that may issue the "
-    "collective sum; finalize/reactivate/destructor are transcribed statement by statement; ranks of a communicator run "
-    "in lock step (a rank that returned while another waits in a collective = deadlock). Proved for ALL rank sets, all "
-    "failure subsets, both failure modes (exception/scope exit -> destructor, finalize(false)), all three ways of "
-    "re-arming and any number of consecutive sections (induction): every path issues exactly one collective per "
-    "section (one_collective_per_section), hence no deadlock (collectives_match_no_deadlock, sections_agree), every "
-    "rank reaching the checkpoint observes MPIGuardError iff some member failed (agreement, no_failure_no_error), a "
-    "throwing rank keeps its own exception, the destructor never throws, arming always yields an armed guard (rearm). "
-    "Futures, for every call history over valid/ready/wait/get/spin with the operation completing at any point: valid "
-    "iff no get yet (future_valid_until_get), get hands out exactly the operation's data exactly once (get_once), "
-    "get/wait afterwards and on default-constructed futures throw InvalidFutureException without blocking "
-    "(get_after_get_error, wait_invalid_error), ready is false while pending and true for ever once complete "
-    "(ready_after_complete), the void classes are the payload-erased projection of the T classes "
-    "(void_future_same_protocol). Tie to the source on every run: the real classes are driven under mpirun (P=1..4, "
+    "Lean 4 theorems about an executable model of mpiguard.hh, of the four future classes (MPIFuture<T>, "
+    "MPIFuture<void>, PseudoFuture<T>, PseudoFuture<void>) and of the type-erasing Dune::Future<T>. Guard: each "
+    "rank's code is a program that may issue the collective sum; finalize/reactivate/destructor are transcribed "
+    "statement by statement; ranks of a communicator run in lock step (a rank that returned while another waits in a "
+    "collective = deadlock). Proved for ALL rank sets, all failure subsets, both failure modes (exception/scope exit -> "
+    "destructor, finalize(false)), all three ways of re-arming and any number of consecutive sections (induction): "
+    "every path issues exactly one collective per section (one_collective_per_section), hence no deadlock "
+    "(collectives_match_no_deadlock, sections_agree); the joint run deadlocks IFF the end of the case is unmatched, "
+    "i.e. some but not all members end with a successful reactivate() and so owe another section (guard_deadlock_iff, "
+    "ends_matched_sufficient); every rank reaching the checkpoint observes MPIGuardError iff some member failed "
+    "(agreement, no_failure_no_error), a throwing rank keeps its own exception (failing_rank_passes), the destructor "
+    "never throws, arming always yields an armed guard (rearm). Futures, for every call history over "
+    "valid/ready/wait/get/spin with the operation completing at any point: valid iff no get yet "
+    "(future_valid_until_get), get hands out exactly the operation's data exactly once (get_once) and exactly one get "
+    "returns in all four classes (get_succeeds_once), every wait/get on any invalid future - result taken or default "
+    "constructed - throws InvalidFutureException and hands out nothing (get_after_get_error, invalid_future_misuse, "
+    "wait_invalid_error), ready is false while pending, true for ever once complete and stable once it answered true "
+    "(ready_after_complete, ready_stays_true, ready_false_while_pending), the void classes are the payload-erased "
+    "projection of the T classes (void_future_same_protocol), Dune::Future<T> answers like the future it holds and a "
+    "null (default-constructed / moved-from) Dune::Future reports misuse (erased_future_transparent, "
+    "null_future_reports_misuse). Tie to the source on every run: the real classes are driven under mpirun (P=1..4, "
     "thorough up to 8) through every guard constructor (default, MPIHelper, MPI_Comm, Communication<MPI_Comm> on split "
     "communicators, sequential Communication<No_Comm>), all 3^P failure patterns for P<=3 embedded in multi-section "
-    "cases plus random ones, and every non-blocking operation (ibarrier, ibroadcast, igather, iscatter, iallgather, "
-    "iallreduce two-argument and in-place, isend/irecv, default-constructed) x payload types (void,int,vector,int&) x "
-    "raw/type-erased Dune::Future x all call sequences of valid/ready/wait/get up to length 4 plus random per-rank "
-    "sequences with environment-completion and polling steps; the Lean model must print the same per-rank observations, "
-    "and an oracle evaluating the property statement directly (shadow flags, expected collective results, collective "
-    "counts observed through PMPI) judges every case."
+    "cases, every path of a rank through a section (guard object before x way of arming x act x act of a second rank) "
+    "plus random cases, and every non-blocking operation (ibarrier, ibroadcast, igather, iscatter, iallgather, "
+    "iallreduce two-argument and in-place, isend/irecv, default-constructed) x payload types (void, int, vector, bool, "
+    "lvalue buffers int&/vector<int>&) x wrapper (the future itself, move-assigned, Dune::Future<R>, Dune::Future<void>, "
+    "moved-from Dune::Future, default Dune::Future) x all call sequences of valid/ready/wait/get up to length 4 plus "
+    "random per-rank sequences with environment-completion and polling steps; the Lean model must print the same "
+    "per-rank observations, and an oracle evaluating the property statement directly (shadow flags, expected collective "
+    "results, collective counts observed through PMPI) judges every case."
 )
 MANIFEST_NOTE = (
     "Partial w.r.t. the runtime: MPI itself is trusted (a collective completes once every member entered it and "
     "delivers the same sum; a request completes iff the operation completed; MPI_Wait returns then; reliable FIFO "
-    "transport) — the theorems are about the guard/future logic on top of it. ready() is made deterministic by "
+    "transport) - the theorems are about the guard/future logic on top of it. ready() is made deterministic by "
     "answering the first MPI_Test of a ready() call with 'not complete' until the harness has seen the request complete "
     "(a legal MPI outcome). Payload of the sequential iallgather and of igather on non-root ranks is not judged "
-    "(belongs to C07). Model describes the tree with fixes/C19_mpifuture_void_get.patch applied."
+    "(belongs to C07). Not covered (outside the property): the state of a moved-from MPIFuture/PseudoFuture object "
+    "(the documentation calls it invalid, the code leaves MPIFuture<void>, MPIFuture<T&> and PseudoFuture valid), "
+    "get_send_data(), destruction of a future with an active request (MPI_Cancel). Model describes the tree with "
+    "fixes/C19_mpifuture_void_get.patch, fixes/C19_future_null_invalid.patch and fixes/C19_mpifuture_bool_payload.patch "
+    "applied."
 )
 TECHNIQUE = ("Lean 4 proof over program-with-collectives model (lock-step semantics, induction over sections and call "
-             "histories) + differential correspondence under mpirun with PMPI interposition (deadlock turned into a "
-             "verdict, MPI_Test steering) and a statement-level oracle")
+             "histories, exact deadlock characterisation) + differential correspondence under mpirun with PMPI "
+             "interposition (deadlock turned into a verdict, MPI_Test steering) and a statement-level oracle")
 TRANSLATORS = []
 HARNESS = dict(
     sources=["mpi_c19.cc", "pmpi_sched.cc"],
@@ -46,16 +58,17 @@ HARNESS = dict(
 )
 CRASH_IS_VIOLATION = True
 RULE = ("cases: (a) guard: constructor x colour split x 1..6 sections, per rank arm in {new, new-inactive+reactivate, "
-        "reactivate} and act in {finalize(true), finalize(), finalize(false), reactivate, throw, leave scope}; for P<=3 "
-        "every pattern over {ok, finalize(false), throw}^P occurs as a section for every constructor; (b) futures: "
-        "operation x payload type x raw/erased x root x values, per step one call per rank; all sequences over "
-        "{valid,ready,wait,get} up to the tier's length for every operation, then random sequences with complete/spin/"
-        "idle steps differing between ranks; distinct = distinct op lines; non-trivial = at least one rank made a "
-        "judged call (idle-only ranks and steps consisting of '-'/'c' only are trivial)")
+        "reactivate} and act in {finalize(true), finalize(), finalize(false), reactivate, throw, leave scope}, end of the "
+        "case matched per communicator; for P<=3 every pattern over {ok, finalize(false), throw}^P occurs as a section "
+        "for every constructor; every (guard object before, arm, act, act of rank 1) path of rank 0; (b) futures: "
+        "operation x payload type x wrapper x root x values, per step one call per rank; all sequences over "
+        "{valid,ready,wait,get} up to the tier's length for every operation (wrappers rotating), then random sequences "
+        "with complete/spin/idle steps differing between ranks; distinct = distinct op lines; non-trivial = at least one "
+        "rank made a judged call (idle-only ranks and steps consisting of '-'/'c' only are trivial)")
 ASSUMPTIONS = [
     "MPI is trusted: collectives on one communicator match in order and deliver the sum to every member; a request completes iff its operation completed; MPI_Wait returns then; MPI_Test may answer 'not complete' for an active request",
     "the Lean model lean/DuneVerif/Model/C19.lean is hand-written; its fidelity to mpiguard.hh, mpifuture.hh, future.hh rests on this differential run",
-    "theorem sections_agree assumes that no rank ends the last section of a case with the re-arming reactivate() checkpoint (such a rank would have to run another section); the harness and the driver reject such lines",
+    "theorems sections_agree/agreement/no_failure_no_error assume a matched end of the case (no member or every member of a communicator ends with a successful reactivate()); guard_deadlock_iff proves that exactly the other cases deadlock (a rank that re-armed owes another section); the harness and the driver reject those lines",
     "the collective results the futures deliver (sum/min/max, gather, scatter, broadcast, send/recv) are computed from the contributions at specification level; their MPI implementation is C07's subject",
 ]
 TRUSTED = ["mpicxx/g++/libstdc++, ASan/UBSan, Open MPI 4.1 (incl. its profiling interface)",
